@@ -238,7 +238,7 @@ def constructors(n):
 
 def run(tier, seed):
     run = Run('C19', tier, seed)
-    depth = 5 if tier == 'quick' else 7
+    depth = 6 if tier == 'quick' else 8
     known, fixed = load_known('C19')
     known_keys = [f['key'] for f in known]
     run.bounds = {'calls_per_history_D': depth, 'call_kinds': 'symbolic per step: ' + ', '.join(OPS), 'distinct_ids': NIDS,
@@ -271,7 +271,14 @@ def run(tier, seed):
             nat = run_native(r['script'])
             run.replayed += 1
             got = nat.get('results') or []
-            same = len(got) == len(r['pred']) and all(canon(a) == canon(b) for a, b in zip(got, r['pred']))
+
+            def norm_(x):
+                # the listing order among equal timestamps is the map's hash order, which the model leaves open:
+                # compare listings as multisets (sortedness by timestamp is an obligation of its own)
+                if isinstance(x, dict) and 'list' in x:
+                    return {'list': sorted(canon(o) for o in x['list'])}
+                return x
+            same = len(got) == len(r['pred']) and all(canon(norm_(a)) == canon(norm_(b)) for a, b in zip(got, r['pred']))
             if not same:
                 run.inconclusive_('%s: encoding and real crate disagree on [%s]: predicted %s native %s'
                                   % (r['name'], r['desc'], canon(r['pred'])[:300], canon(got)[:300]))
